@@ -18,3 +18,8 @@ import pygal_retry  # noqa: E402
 
 # taskiq/middlewares/retry_middleware.py: the retry decision and the re-send (C11)
 SPECS["retry"] = pygal_retry.SPEC
+
+import pygal_callback  # noqa: E402
+
+# taskiq/receiver/receiver.py: the per-message pipeline Receiver.callback (C02, C07, C10), monadic backend (pygal_m.py)
+SPECS["callback"] = pygal_callback.SPEC
